@@ -163,7 +163,13 @@ def check(repo, rep):
         # walk the chain of updates  ('upd', base, key, value)
         ups = {}
         cur = star
-        while cur[0] == 'upd':
+        while cur[0] == 'upd' or (cur[0] == 'call' and cur[1] == ('b', 'dict') and len(cur[2]) == 1 and all(k_ != '**' for k_, _ in cur[3])):
+            if cur[0] == 'call':
+                # dict(base, key=value, ...): a copy of base with those entries set
+                for k_, v_ in cur[3]:
+                    ups.setdefault(k_, v_)
+                cur = cur[2][0]
+                continue
             if cur[2][0] == 'c':
                 ups.setdefault(cur[2][1], cur[3])
             cur = cur[1]
